@@ -17,6 +17,7 @@ class LoopSpec:
     unroll: int | None = None                                 # unroll exactly this many times
     keep: list = dataclasses.field(default_factory=list)      # names NOT to havoc although assigned
     havoc: list = dataclasses.field(default_factory=list)     # extra names to havoc
+    snapshot: dict = dataclasses.field(default_factory=dict)  # ghost local -> spec expr, assigned at every loop head
 
 
 @dataclasses.dataclass
